@@ -333,14 +333,14 @@ def compose(seed, adversarial=False):
                 attempt(['gen', len(b.pool) - 1, rng.choice([x, y] + list(k.evars))])
         elif kind == 'quantprobe':
             # the Quantifier axiom phi0[x1/x0] -> exists x0 . phi0 instantiated with plugs that bind, shadow or mention x0 / x1,
-            # plain and under (complete and partial) notation applications whose definition binds a variable
+            # plain and under notation applications whose definition binds a variable
             x0, x1 = T.evar(0), T.evar(1)
             v = rng.choice([0, 0, 1, 2])
             fa = lambda t: N(nneg(T.ex(v, nneg(M0))), t)                  # forall v . t as a notation application
             ex2 = lambda t, u: N(T.ex(v, T.imp(M0, M1)), t, u)
             fam = [fa(T.app(T.sym(0), x0)), fa(x0), fa(x1), fa(T.app(x0, x1)), nneg(fa(x0)), ex2(x0, x1), ex2(x1, T.sym(0)), T.ex(0, x0), T.ex(1, T.app(x0, x1)),
                    x0, x1, T.app(x0, x1), nand(x0, fa(x0)), T.mv(1, ef=(0,)), T.mv(1), T.esub(T.mv(1), 0, T.sym(0)), T.imp(x0, T.ex(0, x0)),
-                   ('N', nneg(T.ex(v, nneg(M0))), ()), fa(T.mv(1, ef=(v,)))]
+                   fa(T.mv(1, ef=(v,)))]      # (always complete applications: Notation.__call__ asserts the arity, and a registered notation cannot print a partial one)
             if lib_name == 'Kore':
                 import proof_generation.proofs.kore as kl
                 from proof_generation.proofs.substitution import forall as _forall
